@@ -48,6 +48,7 @@ def make_generated():
     out["gen_quantity"] = (UnitSystem("gen_quantity", unyt_quantity(3.0, "Mpc"), unyt_quantity(2.0, "Msun"), unyt_quantity(2.0, "Myr")), None)
     out["gen_angles"] = (UnitSystem("gen_angles", "inch", "oz", "hr", temperature_unit="R", angle_unit="degree"), None)
     out["gen_nocurrent"] = (UnitSystem("gen_nocurrent", "m", "kg", "s", current_mks_unit=None), None)
+    out["gen_offset"] = (UnitSystem("gen_offset", "km", "kg", "hr", temperature_unit="degC"), None)  # a base unit with a zero point
     s = UnitSystem("gen_override", "m", "kg", "s")
     s["energy"] = "keV"
     s["pressure"] = "bar"
@@ -490,7 +491,7 @@ class System:
         return out
 
 
-ALL_SYSTEMS = BUILTIN + ["gen_prefixed", "gen_quantity", "gen_angles", "gen_nocurrent", "gen_override", "gen_code"]
+ALL_SYSTEMS = BUILTIN + ["gen_prefixed", "gen_quantity", "gen_angles", "gen_nocurrent", "gen_offset", "gen_override", "gen_code"]
 
 
 def run(ctx):
